@@ -479,6 +479,9 @@ func checkC09(w *World) {
 		if !known {
 			return
 		}
+		if ta.Parent().Signature.Results().Len() != 3 {
+			return // a token filter of the adapter (e.g. the XML declaration), not an arm that produces events
+		}
 		found[tok] = true
 		// returns in blocks where the assertion held
 		good := true
@@ -657,8 +660,8 @@ func checkC09(w *World) {
 		w.check(P, "R09.5", "xml.NewDecoder reads the caller's bytes", rx.Pos(), direct, fmt.Sprintf("the decoder is given the caller's reader itself: %v (a transcoding layer in front of it runs before the declared encoding is known and corrupts non-UTF-8 documents or hides invalid bytes)", direct))
 	}
 	w.floor(P, "R09.5", 2)
-	// R09.6 strictness of the decoder
-	docRule(P, "R09.6", "F", "the library never relaxes encoding/xml's well-formedness checks: no function of the library packages (the command passes its -u/-e flags as caller options, which is the caller's choice) stores into the Strict (other than the constant true), AutoClose, Entity or DefaultSpace field of an xml.Decoder (Strict=false accepts mismatched/unclosed tags and unknown entities; an Entity map such as xml.HTMLEntity makes undefined entities resolve silently; AutoClose closes elements the document left open). The scanner is the one that finds the CharsetReader store of R09.5, so it sees the decoder's configuration site.")
+	// R09.7 strictness of the decoder
+	docRule(P, "R09.7", "F", "the library never relaxes encoding/xml's well-formedness checks: no function of the library packages (the command passes its -u/-e flags as caller options, which is the caller's choice) stores into the Strict (other than the constant true), AutoClose, Entity or DefaultSpace field of an xml.Decoder (Strict=false accepts mismatched/unclosed tags and unknown entities; an Entity map such as xml.HTMLEntity makes undefined entities resolve silently; AutoClose closes elements the document left open). The scanner is the one that finds the CharsetReader store of R09.5, so it sees the decoder's configuration site.")
 	{
 		var bad []string
 		seenFields := map[string]bool{}
@@ -702,10 +705,16 @@ func checkC09(w *World) {
 			})
 		}
 		sort.Strings(bad)
-		w.check(P, "R09.6", "xml.Decoder configuration", rxPos(w), len(bad) == 0 && seenFields["CharsetReader"],
+		w.check(P, "R09.7", "xml.Decoder configuration", rxPos(w), len(bad) == 0 && seenFields["CharsetReader"],
 			fmt.Sprintf("decoder fields written by the repository: %v; relaxing stores: %v", keys(seenFields), orElse(strings.Join(bad, "; "), "none")))
 	}
-	w.floor(P, "R09.6", 1)
+	w.floor(P, "R09.7", 1)
+	// R09.8 the XML declaration is not a processing instruction
+	w.xmlDeclarationDiscarded(P, pull)
+	// R09.9 adjacent character data is one text node
+	w.charDataMerged(P, pull)
+	// R09.10 xmlns="" removes a binding
+	w.namespaceUndeclared(P)
 	// namespace nodes belong to their element: ownership rules of the store
 	w.include(P, "C10", "R10.5", "R10.8")
 }
@@ -746,12 +755,7 @@ func (w *World) replayOrder(P string, pull *ssa.Function) {
 		st := fa.X.Type().Underlying().(*types.Pointer).Elem().Underlying().(*types.Struct)
 		return st.Field(fa.Field).Name()
 	}
-	var tokenCall *ssa.Call
-	allInstrs(pull, func(in ssa.Instruction) {
-		if c, ok := in.(*ssa.Call); ok && staticCallee(c) != nil && strings.HasSuffix(funcFullName(staticCallee(c)), ".Token") {
-			tokenCall = c
-		}
-	})
+	tokenCall, _ := w.tokenSource(pull, "Token", 0)
 	if tokenCall == nil {
 		w.undecided(P, "R09.3", "replay order", pull.Pos(), "no decoder Token() call")
 		return
@@ -809,57 +813,12 @@ func (w *World) replayOrder(P string, pull *ssa.Function) {
 
 // errorDiscipline checks the decoder-error path of a pull adapter and the store/xsel propagation.
 func (w *World) errorDiscipline(P string, pull *ssa.Function, tokenMethod string) {
-	var tokenCall *ssa.Call
-	allInstrs(pull, func(in ssa.Instruction) {
-		if c, ok := in.(*ssa.Call); ok && staticCallee(c) != nil && strings.HasSuffix(funcFullName(staticCallee(c)), "."+tokenMethod) {
-			tokenCall = c
-		}
-	})
+	tokenCall, okRet, okOrder, via := w.errPropagation(pull, tokenMethod, 0)
 	if tokenCall == nil {
 		w.undecided(P, "R09.4", "decoder error", pull.Pos(), "no decoder call")
 		return
 	}
-	var errV ssa.Value
-	for _, rr := range referrers(tokenCall) {
-		if ex, ok := rr.(*ssa.Extract); ok && ex.Index == 1 {
-			errV = ex
-		}
-	}
-	okRet := false
-	allInstrs(pull, func(in ssa.Instruction) {
-		ret, ok := in.(*ssa.Return)
-		if !ok || len(ret.Results) != 3 {
-			return
-		}
-		if ret.Results[2] == errV && isNilConst(ret.Results[0]) {
-			for _, a := range guardAtoms(ret.Block()) {
-				if bo, ok := a.V.(*ssa.BinOp); ok && bo.X == errV && isNilConst(bo.Y) && ((bo.Op == token.NEQ && a.Pol) || (bo.Op == token.EQL && !a.Pol)) {
-					okRet = true
-				}
-			}
-		}
-	})
-	// and no success return before the error test: every other return is dominated by err == nil
-	okOrder := true
-	allInstrs(pull, func(in ssa.Instruction) {
-		ret, ok := in.(*ssa.Return)
-		if !ok || len(ret.Results) != 3 || ret.Results[2] == errV {
-			return
-		}
-		if !tokenCall.Block().Dominates(ret.Block()) || tokenCall.Block() == ret.Block() {
-			return
-		}
-		nilTested := false
-		for _, a := range guardAtoms(ret.Block()) {
-			if bo, ok := a.V.(*ssa.BinOp); ok && bo.X == errV && isNilConst(bo.Y) && ((bo.Op == token.NEQ && !a.Pol) || (bo.Op == token.EQL && a.Pol)) {
-				nilTested = true
-			}
-		}
-		if !nilTested {
-			okOrder = false
-		}
-	})
-	w.check(P, "R09.4", "decoder error returned by "+pull.String(), tokenCall.Pos(), okRet && okOrder, fmt.Sprintf("returns (nil, _, err) when err != nil: %v; every node-producing return is reached only with err == nil: %v", okRet, okOrder))
+	w.check(P, "R09.4", "decoder error returned by "+pull.String(), tokenCall.Pos(), okRet && okOrder, fmt.Sprintf("returns (nil, _, err) when err != nil: %v; every node-producing return is reached only with err == nil: %v%s", okRet, okOrder, via))
 
 	// store: nil only under errors.Is(err, io.EOF)
 	sf := w.StoreFacts()
@@ -969,4 +928,518 @@ func rxPos(w *World) token.Pos {
 		return rx.Pos()
 	}
 	return token.NoPos
+}
+
+// xmlDeclarationDiscarded (R09.8): encoding/xml reports `<?xml version="1.0"?>` as a ProcInst token with the target
+// "xml". The XPath data model has no node for the XML declaration, so somewhere between Decoder.Token() and the
+// construction of a processing-instruction node the adapter has to compare the target with "xml" and drop the token:
+// from the true edge of that comparison no path may reach a return of the function without first obtaining a fresh
+// token (the next iteration of a read loop, or a recursive pull).
+func (w *World) xmlDeclarationDiscarded(P string, pull *ssa.Function) {
+	docRule(P, "R09.8", "D", "the XML declaration is not a node: in the XML pull adapter (Pull and the functions of the package it calls) the Target of a ProcInst token is compared with the constant \"xml\", and from the edge on which they are equal every path obtains a new token (Decoder.Token/RawToken or a recursive call into the adapter) before it reaches a return: the declaration token is dropped, never turned into a processing-instruction node or an end event.")
+	var scope []*ssa.Function
+	for g := range staticReach(pull, func(x *ssa.Function) bool { return fnPkgKey(x) == "parser" }) {
+		if fnPkgKey(g) == "parser" {
+			scope = append(scope, g)
+		}
+	}
+	sortFuncs(scope)
+	inScope := map[*ssa.Function]bool{}
+	for _, g := range scope {
+		inScope[g] = true
+	}
+	fresh := func(b *ssa.BasicBlock) bool {
+		for _, in := range b.Instrs {
+			c, ok := in.(ssa.CallInstruction)
+			if !ok {
+				continue
+			}
+			if sc := c.Common().StaticCallee(); sc != nil {
+				fn := funcFullName(sc)
+				if fn == "(*encoding/xml.Decoder).Token" || fn == "(*encoding/xml.Decoder).RawToken" || inScope[sc] && sc.Signature.Results().Len() >= 2 {
+					return true
+				}
+			}
+		}
+		return false
+	}
+	n := 0
+	for _, g := range scope {
+		allInstrs(g, func(in ssa.Instruction) {
+			bo, ok := in.(*ssa.BinOp)
+			if !ok || (bo.Op != token.EQL && bo.Op != token.NEQ) {
+				return
+			}
+			var other ssa.Value
+			if s, isC := constString(bo.Y); isC && s == "xml" {
+				other = bo.X
+			} else if s, isC := constString(bo.X); isC && s == "xml" {
+				other = bo.Y
+			} else {
+				return
+			}
+			// other is the Target field of an xml.ProcInst
+			isTarget := false
+			switch x := other.(type) {
+			case *ssa.Field:
+				if nt, ok := types.Unalias(x.X.Type()).(*types.Named); ok && nt.Obj().Pkg() != nil && nt.Obj().Pkg().Path() == "encoding/xml" && nt.Obj().Name() == "ProcInst" {
+					isTarget = nt.Underlying().(*types.Struct).Field(x.Field).Name() == "Target"
+				}
+			case *ssa.UnOp:
+				if fa, ok := x.X.(*ssa.FieldAddr); ok {
+					if pt, ok := fa.X.Type().Underlying().(*types.Pointer); ok {
+						if nt, ok := types.Unalias(pt.Elem()).(*types.Named); ok && nt.Obj().Pkg() != nil && nt.Obj().Pkg().Path() == "encoding/xml" && nt.Obj().Name() == "ProcInst" {
+							isTarget = nt.Underlying().(*types.Struct).Field(fa.Field).Name() == "Target"
+						}
+					}
+				}
+			}
+			if !isTarget {
+				return
+			}
+			n++
+			// the If that branches on this comparison
+			var iff *ssa.If
+			for _, rr := range referrers(bo) {
+				if x, ok := rr.(*ssa.If); ok {
+					iff = x
+				}
+			}
+			if iff == nil {
+				w.undecided(P, "R09.8", "comparison of a ProcInst target with \"xml\" in "+g.Name(), bo.Pos(), "the comparison does not feed a branch directly")
+				return
+			}
+			eqSucc := iff.Block().Succs[0]
+			if bo.Op == token.NEQ {
+				eqSucc = iff.Block().Succs[1]
+			}
+			// search from the equal edge for a return that is reached without a fresh token
+			seen := map[*ssa.BasicBlock]bool{}
+			var bad *ssa.Return
+			var walk func(b *ssa.BasicBlock)
+			walk = func(b *ssa.BasicBlock) {
+				if seen[b] || bad != nil {
+					return
+				}
+				seen[b] = true
+				if fresh(b) {
+					return
+				}
+				for _, in2 := range b.Instrs {
+					if ret, ok := in2.(*ssa.Return); ok {
+						bad = ret
+						return
+					}
+				}
+				for _, s := range b.Succs {
+					walk(s)
+				}
+			}
+			walk(eqSucc)
+			ok2 := bad == nil
+			d := "from the edge on which the target equals \"xml\" every path reads a new token before returning"
+			if !ok2 {
+				d = "the token with target \"xml\" reaches the return at " + w.pos(bad.Pos()) + " without a new token being read: the XML declaration is handed on"
+			}
+			w.check(P, "R09.8", "XML declaration dropped in "+g.Name(), bo.Pos(), ok2, d)
+		})
+	}
+	if n == 0 {
+		w.check(P, "R09.8", "XML declaration", pull.Pos(), false, "nothing in the XML pull adapter compares a ProcInst target with \"xml\": the XML declaration `<?xml version=...?>` becomes a processing-instruction child of the root (count(/processing-instruction()) = 1 for a document without processing instructions)")
+	}
+	w.floor(P, "R09.8", 1)
+}
+
+// tokenSource: the call in fn through which the adapter obtains its next token: a direct call of the decoder's
+// method, or a call of a helper of the same package (last result an error) that obtains it the same way.
+func (w *World) tokenSource(fn *ssa.Function, tokenMethod string, depth int) (*ssa.Call, bool) {
+	var direct, viaHelper *ssa.Call
+	allInstrs(fn, func(in ssa.Instruction) {
+		c, ok := in.(*ssa.Call)
+		if !ok || staticCallee(c) == nil {
+			return
+		}
+		sc := staticCallee(c)
+		if strings.HasSuffix(funcFullName(sc), "."+tokenMethod) && !inRepo(sc) {
+			direct = c
+			return
+		}
+		if depth < 3 && inRepo(sc) && fnPkgKey(sc) == fnPkgKey(fn) && sc != fn && lastResultIsError(sc) && sc.Signature.Results().Len() >= 2 {
+			if inner, _ := w.tokenSource(sc, tokenMethod, depth+1); inner != nil {
+				viaHelper = c
+			}
+		}
+	})
+	if direct != nil {
+		return direct, false
+	}
+	return viaHelper, viaHelper != nil
+}
+
+func lastResultIsError(fn *ssa.Function) bool {
+	res := fn.Signature.Results()
+	if res.Len() == 0 {
+		return false
+	}
+	n, ok := res.At(res.Len() - 1).Type().(*types.Named)
+	return ok && n.Obj().Pkg() == nil && n.Obj().Name() == "error"
+}
+
+// errPropagation: in fn the error of the token source is returned unchanged (with a nil first result) when it is
+// not nil, and every other return after the token source is reached only with a nil error. When the token source
+// is a helper, the same has to hold inside the helper.
+func (w *World) errPropagation(fn *ssa.Function, tokenMethod string, depth int) (call *ssa.Call, okRet, okOrder bool, via string) {
+	tokenCall, isHelper := w.tokenSource(fn, tokenMethod, depth)
+	if tokenCall == nil {
+		return nil, false, false, ""
+	}
+	nres := fn.Signature.Results().Len()
+	errIdx := staticCallee(tokenCall).Signature.Results().Len() - 1
+	var errV ssa.Value
+	for _, rr := range referrers(tokenCall) {
+		if ex, ok := rr.(*ssa.Extract); ok && ex.Index == errIdx {
+			errV = ex
+		}
+	}
+	allInstrs(fn, func(in ssa.Instruction) {
+		ret, ok := in.(*ssa.Return)
+		if !ok || len(ret.Results) != nres || nres == 0 {
+			return
+		}
+		if ret.Results[nres-1] == errV && isNilConst(ret.Results[0]) {
+			for _, a := range guardAtoms(ret.Block()) {
+				if bo, ok := a.V.(*ssa.BinOp); ok && bo.X == errV && isNilConst(bo.Y) && ((bo.Op == token.NEQ && a.Pol) || (bo.Op == token.EQL && !a.Pol)) {
+					okRet = true
+				}
+			}
+		}
+		// `return decoder.Token()`: both results handed on as they are
+		if ret.Results[nres-1] == errV && nres == 2 {
+			if ex, ok := ret.Results[0].(*ssa.Extract); ok && ex.Tuple == ssa.Value(tokenCall) && ex.Index == 0 {
+				okRet = true
+			}
+		}
+	})
+	okOrder = true
+	allInstrs(fn, func(in ssa.Instruction) {
+		ret, ok := in.(*ssa.Return)
+		if !ok || len(ret.Results) != nres || nres == 0 || ret.Results[nres-1] == errV {
+			return
+		}
+		if !tokenCall.Block().Dominates(ret.Block()) || tokenCall.Block() == ret.Block() {
+			return
+		}
+		nilTested := false
+		for _, a := range guardAtoms(ret.Block()) {
+			if bo, ok := a.V.(*ssa.BinOp); ok && bo.X == errV && isNilConst(bo.Y) && ((bo.Op == token.NEQ && !a.Pol) || (bo.Op == token.EQL && a.Pol)) {
+				nilTested = true
+			}
+		}
+		if !nilTested {
+			okOrder = false
+		}
+	})
+	if isHelper {
+		h := staticCallee(tokenCall)
+		_, hRet, hOrder, hVia := w.errPropagation(h, tokenMethod, depth+1)
+		okRet = okRet && hRet
+		okOrder = okOrder && hOrder
+		via = fmt.Sprintf(" (token obtained through %s, which returns the decoder's error unchanged: %v, and a token only with a nil error: %v%s)", h.Name(), hRet, hOrder, hVia)
+	}
+	return tokenCall, okRet, okOrder, via
+}
+
+// charDataMerged (R09.9): encoding/xml delivers the text before a CDATA section, the section and the text after it as
+// separate CharData tokens; the XPath data model has one text node for them ("as much character data as possible is
+// grouped into each text node"). An adapter that turns every CharData token into a node of its own therefore builds
+// too many text nodes. Necessary shape of any adapter that merges them: it reads ahead. Somewhere in the adapter
+//   (a) a loop calls the decoder's Token() and tests the new token for CharData, and on the matching edge stays in
+//       the loop with the bytes concatenated to what it has;
+//   (b) on the other edge the token that was read ahead is kept in a field of the adapter (nothing else survives
+//       until the next Pull), and so is an error met while reading ahead, unless it is returned at once;
+//   (c) the kept token is handed out before the decoder is asked again: the function that loads that field calls
+//       Token() only under the test that the field is empty.
+func (w *World) charDataMerged(P string, pull *ssa.Function) {
+	docRule(P, "R09.9", "D+F", "adjacent character data (text, CDATA sections) forms one text node: the XML pull adapter contains a read-ahead loop that calls Decoder.Token(), concatenates while the new token is xml.CharData and otherwise stores the token read ahead (and an error met there) into a field of the adapter; the function that reads that field back calls Decoder.Token() only when the field is empty, so no token is lost or delivered out of order.")
+	var scope []*ssa.Function
+	for g := range staticReach(pull, func(x *ssa.Function) bool { return fnPkgKey(x) == "parser" }) {
+		if fnPkgKey(g) == "parser" {
+			scope = append(scope, g)
+		}
+	}
+	sortFuncs(scope)
+	isToken := func(in ssa.Instruction) *ssa.Call {
+		c, ok := in.(*ssa.Call)
+		if !ok || staticCallee(c) == nil {
+			return nil
+		}
+		if fn := funcFullName(staticCallee(c)); fn == "(*encoding/xml.Decoder).Token" || fn == "(*encoding/xml.Decoder).RawToken" {
+			return c
+		}
+		return nil
+	}
+	isXML := func(t types.Type, name string) bool {
+		n, ok := types.Unalias(t).(*types.Named)
+		return ok && n.Obj().Pkg() != nil && n.Obj().Pkg().Path() == "encoding/xml" && n.Obj().Name() == name
+	}
+	type found struct {
+		fn        *ssa.Function
+		tok       *ssa.Call
+		ta        *ssa.TypeAssert
+		concat    bool
+		keptField int
+		errKept   bool
+	}
+	var loops []found
+	for _, g := range scope {
+		lb := loopBlocks(g)
+		allInstrs(g, func(in ssa.Instruction) {
+			tc := isToken(in)
+			if tc == nil || !lb[tc.Block()] {
+				return
+			}
+			// the token value and its CharData test inside the loop
+			var tokV, errV ssa.Value
+			for _, rr := range referrers(tc) {
+				if ex, ok := rr.(*ssa.Extract); ok {
+					if ex.Index == 0 {
+						tokV = ex
+					} else {
+						errV = ex
+					}
+				}
+			}
+			if tokV == nil {
+				return
+			}
+			var ta *ssa.TypeAssert
+			for _, rr := range referrers(tokV) {
+				if x, ok := rr.(*ssa.TypeAssert); ok && x.CommaOk && isXML(x.AssertedType, "CharData") && lb[x.Block()] {
+					ta = x
+				}
+			}
+			if ta == nil {
+				return
+			}
+			f := found{fn: g, tok: tc, ta: ta, keptField: -1}
+			// (a) concatenation of the asserted bytes inside the loop
+			var val ssa.Value
+			for _, rr := range referrers(ta) {
+				if ex, ok := rr.(*ssa.Extract); ok && ex.Index == 0 {
+					val = ex
+				}
+			}
+			if val != nil {
+				seen := map[ssa.Value]bool{}
+				var flows func(v ssa.Value, depth int)
+				flows = func(v ssa.Value, depth int) {
+					if seen[v] || depth > 6 {
+						return
+					}
+					seen[v] = true
+					for _, rr := range referrers(v) {
+						switch x := rr.(type) {
+						case *ssa.Call:
+							if bi, ok := x.Call.Value.(*ssa.Builtin); ok && bi.Name() == "append" && lb[x.Block()] {
+								f.concat = true
+							}
+						case *ssa.BinOp:
+							if x.Op == token.ADD && lb[x.Block()] {
+								f.concat = true
+							}
+						case *ssa.Convert:
+							flows(x, depth+1)
+						case *ssa.ChangeType:
+							flows(x, depth+1)
+						case *ssa.Slice:
+							flows(x, depth+1)
+						}
+					}
+				}
+				flows(val, 0)
+			}
+			// (b) the token read ahead is stored into a field of the adapter where the assertion failed
+			allInstrs(g, func(in2 ssa.Instruction) {
+				st, ok := in2.(*ssa.Store)
+				if !ok {
+					return
+				}
+				fa, ok := st.Addr.(*ssa.FieldAddr)
+				if !ok || len(g.Params) == 0 || fa.X != ssa.Value(g.Params[0]) {
+					return
+				}
+				if sliceContains(st.Val, func(v ssa.Value) bool { return v == tokV }) {
+					f.keptField = fa.Field
+				}
+				if errV != nil && sliceContains(st.Val, func(v ssa.Value) bool { return v == errV }) {
+					f.errKept = true
+				}
+			})
+			// an error returned at once is as good as a kept one
+			if errV != nil && !f.errKept {
+				allInstrs(g, func(in2 ssa.Instruction) {
+					if ret, ok := in2.(*ssa.Return); ok {
+						for _, rv := range ret.Results {
+							if rv == errV {
+								f.errKept = true
+							}
+						}
+					}
+				})
+			}
+			loops = append(loops, f)
+		})
+	}
+	if len(loops) == 0 {
+		w.check(P, "R09.9", "read-ahead over character data", pull.Pos(), false, "no loop of the XML pull adapter calls Decoder.Token() and tests the token for xml.CharData: every CharData token becomes a text node of its own, so `<a>x<![CDATA[y]]>z</a>` has three text children instead of one")
+		w.floor(P, "R09.9", 1)
+		return
+	}
+	for _, f := range loops {
+		w.check(P, "R09.9", "read-ahead loop in "+f.fn.Name()+": character data is concatenated", f.tok.Pos(), f.concat, fmt.Sprintf("the bytes of a following CharData token are appended inside the loop: %v", f.concat))
+		w.check(P, "R09.9", "read-ahead loop in "+f.fn.Name()+": the token read ahead is kept", f.ta.Pos(), f.keptField >= 0 && f.errKept, fmt.Sprintf("a token that is not character data is stored into a field of the adapter: %v; an error met while reading ahead is stored or returned: %v", f.keptField >= 0, f.errKept))
+		if f.keptField < 0 {
+			continue
+		}
+		// (c) the field is read back before the decoder is asked again
+		readers := 0
+		okOrder := true
+		detail := ""
+		for _, g := range scope {
+			var loads []ssa.Value
+			allInstrs(g, func(in ssa.Instruction) {
+				if ld, ok := in.(*ssa.UnOp); ok && ld.Op == token.MUL {
+					if fa, ok := ld.X.(*ssa.FieldAddr); ok && fa.Field == f.keptField && len(g.Params) > 0 && fa.X == ssa.Value(g.Params[0]) {
+						loads = append(loads, ld)
+					}
+				}
+			})
+			if len(loads) == 0 {
+				continue
+			}
+			readers++
+			// every Token() call of this function outside the read-ahead loop is guarded by "field is nil"
+			allInstrs(g, func(in ssa.Instruction) {
+				tc := isToken(in)
+				if tc == nil || tc == f.tok {
+					return
+				}
+				guarded := false
+				for _, a := range guardAtoms(tc.Block()) {
+					bo, ok := a.V.(*ssa.BinOp)
+					if !ok {
+						continue
+					}
+					for _, ld := range loads {
+						if (bo.X == ld && isNilConst(bo.Y)) || (bo.Y == ld && isNilConst(bo.X)) {
+							if (bo.Op == token.EQL && a.Pol) || (bo.Op == token.NEQ && !a.Pol) {
+								guarded = true
+							}
+						}
+					}
+				}
+				if !guarded {
+					okOrder = false
+					detail = "Decoder.Token() at " + w.pos(tc.Pos()) + " is called without testing that no token is waiting"
+				}
+			})
+		}
+		w.check(P, "R09.9", "the token read ahead is delivered first", f.ta.Pos(), readers > 0 && okOrder, orElse(detail, fmt.Sprintf("functions reading the kept token back: %d; each asks the decoder only when nothing is waiting: %v", readers, okOrder)))
+	}
+	w.floor(P, "R09.9", 1)
+}
+
+// namespaceUndeclared (R09.10): `xmlns=""` is not a namespace binding: the element and its descendants have no
+// namespace node for the default namespace. The XML adapter reports it as a namespace event with an empty value
+// (it cannot know what the store inherited), so the store, which copies the parent's namespace nodes into every
+// new element, has to (i) construct a namespace node only for a non-empty value and (ii) on an empty value take
+// the inherited node with the same prefix out of the element's list.
+func (w *World) namespaceUndeclared(P string) {
+	docRule(P, "R09.10", "D+F", "an empty namespace name un-declares: in package store every cursor constructor call whose node is a node.Namespace is reached only under NamespaceValue() != \"\", and on the path where the value is empty and a node with the same prefix was found in the element's list, the list is stored back without that entry (append of the part before and the part after it): `<b xmlns=\"\"/>` has no namespace node with an empty URI and does not keep the default namespace it inherited.")
+	sf := w.StoreFacts()
+	n := 0
+	w.forAllFuncs("store", func(fn *ssa.Function) {
+		allInstrs(fn, func(in ssa.Instruction) {
+			c, ok := in.(*ssa.Call)
+			if !ok {
+				return
+			}
+			ci, isCtor := sf.Ctors[staticCallee(c)]
+			if !isCtor || ci.NodeParam < 0 || ci.NodeParam >= len(c.Call.Args) {
+				return
+			}
+			arg := c.Call.Args[ci.NodeParam]
+			isNS := false
+			backSlice(arg, func(v ssa.Value) bool {
+				if nm, _ := nodeIface(v.Type()); nm != nil && nm.Obj().Name() == "Namespace" {
+					isNS = true
+					return false
+				}
+				_, isCall := v.(*ssa.Call)
+				return !isCall
+			})
+			if !isNS {
+				return
+			}
+			n++
+			guarded := false
+			for _, a := range guardAtoms(c.Block()) {
+				if isT, eqTrue := emptyNamespaceTest(a.V); isT && a.Pol != eqTrue {
+					guarded = true
+				}
+			}
+			w.check(P, "R09.10", "namespace node constructed in "+fn.Name(), c.Pos(), guarded, fmt.Sprintf("the constructor call is reached only when NamespaceValue() is not empty: %v (otherwise xmlns=\"\" yields a namespace node with an empty URI, and the inherited default namespace node is replaced by it instead of being removed)", guarded))
+		})
+	})
+	if n == 0 {
+		w.undecided(P, "R09.10", "namespace node construction", 0, "no constructor call with a node.Namespace argument found in package store")
+	}
+	// removal on the empty path
+	removed := false
+	var where token.Pos
+	w.forAllFuncs("store", func(fn *ssa.Function) {
+		allInstrs(fn, func(in ssa.Instruction) {
+			c, ok := in.(*ssa.Call)
+			if !ok {
+				return
+			}
+			b, ok := c.Call.Value.(*ssa.Builtin)
+			if !ok || b.Name() != "append" || len(c.Call.Args) != 2 {
+				return
+			}
+			s1, ok1 := c.Call.Args[0].(*ssa.Slice)
+			s2, ok2 := c.Call.Args[1].(*ssa.Slice)
+			if !ok1 || !ok2 || s1.High == nil || s2.Low == nil {
+				return
+			}
+			// s2.Low == s1.High + 1
+			bo, ok := s2.Low.(*ssa.BinOp)
+			if !ok || bo.Op != token.ADD || bo.X != s1.High {
+				return
+			}
+			if k, isK := constInt(bo.Y); !isK || k != 1 {
+				return
+			}
+			emptyPath := false
+			for _, a := range guardAtoms(c.Block()) {
+				if isT, eqTrue := emptyNamespaceTest(a.V); isT && a.Pol == eqTrue {
+					emptyPath = true
+				}
+			}
+			storedBack := false
+			for _, rr := range referrers(c) {
+				if st, ok := rr.(*ssa.Store); ok {
+					if fa, ok := st.Addr.(*ssa.FieldAddr); ok && sf.roleOf(fa.Field) == "namespaces" {
+						storedBack = true
+					}
+				}
+			}
+			if emptyPath && storedBack {
+				removed = true
+				where = c.Pos()
+			}
+		})
+	})
+	w.check(P, "R09.10", "inherited binding removed on an empty namespace name", where, removed, fmt.Sprintf("on the path where NamespaceValue() is empty the namespaces list is stored back without the entry of that prefix: %v", removed))
+	w.floor(P, "R09.10", 2)
 }
